@@ -22,7 +22,11 @@ def decode_index(tok, max_n=64):
         if cls == "text":
             return _idx(tok), cls
         if cls == "j9":
-            return _idx(G.j9_decode(tok)), cls
+            plain = G.j9_decode(tok)
+            n = _idx(plain)
+            if n is None and not plain.startswith("$9$"):
+                n = decode_index(plain, max_n)[0]      # a pseudonym re-encoded in another format class
+            return n, cls
         if cls.startswith("md5") or cls == "sha":
             if tok in _verify_cache:
                 return _verify_cache[tok], cls
